@@ -197,8 +197,9 @@ def gen_records(rng, n, paired, fastq, adapters1, adapters2, maxlen=60, r2_maxle
         st = style if style != "mixed" else rng.choice(["none", "casava", "text"])
         if st == "casava":
             flag = rng.choice("NNNY")
-            tail = f":{flag}:0:{rand_seq(rng, 6)}"
-            c1, c2 = "1" + tail, "2" + tail
+            idx_ = rand_seq(rng, 6)
+            flag2 = flag if rng.random() < 0.7 else rng.choice("NY")  # mates may disagree
+            c1, c2 = f"1:{flag}:0:{idx_}", f"2:{flag2}:0:{idx_}"
         elif st == "text":
             c = rng.choice(["length=33", "x y", "foo;bar", "a=b c=d"])
             c1 = c2 = c
